@@ -201,6 +201,29 @@ func checkEnc(t *engine.T, d *transcript, w *encWorld, b *wrapBase, m modeSpec, 
 			}
 		}
 	}
+	// record layout message||uid: the message's capacity reaches over the identity that is used again afterwards
+	if len(msg) > 0 && len(w.uid) > 0 {
+		rec := make([]byte, len(msg)+len(w.uid)+64)
+		for i := range rec {
+			rec[i] = 0xC3 ^ byte(i)
+		}
+		copy(rec, msg)
+		copy(rec[len(msg):], w.uid)
+		msgR, uidR := rec[:len(msg):len(rec)], rec[len(msg):len(msg)+len(w.uid):len(rec)]
+		if !t.Guard("encrypt", func() { got, err = sm9.Encrypt(mkReader(), w.pub, uidR, w.hid, msgR, m.opts) }) {
+			t.Eval(1)
+			if err != nil {
+				t.Fail("encrypt/error", "%s: Encrypt (record message||uid): %v", id, err)
+			} else {
+				eq(t, kdfKey("encrypt/"+m.name+"/raw-mismatch", zlen, klen), got, raw, "%s: Encrypt with record layout message||uid", id)
+			}
+			if !bytes.Equal(uidR, w.uid) {
+				t.Fail("caller-memory/uid-behind-message-modified/"+m.name, "%s: the identity argument, lying directly behind the message in the same array, was modified by Encrypt: %x -> %x", id, w.uid, uidR)
+			} else if !bytes.Equal(msgR, msg) {
+				t.Fail("caller-memory/message-modified/"+m.name, "%s: the message argument was modified by Encrypt", id)
+			}
+		}
+	}
 	// ASN.1
 	if !t.Guard("encrypt", func() { got, err = sm9.EncryptASN1(mkReader(), w.pub, w.uid, w.hid, after(w.uid, msg), m.opts) }) {
 		if err != nil {
